@@ -32,7 +32,8 @@
      PhraseTypo       - one row of the reason phrase table is wrong (404 "Not found")
      WrongCode        - one row of the code table is wrong (307 emitted as 306)
      NoBlankLine      - only one CRLF between the last header and the body
-     TeKeptAfterDecode- Transfer-Encoding left in the headers of a decoded chunked response *)
+     TeKeptAfterDecode- Transfer-Encoding left in the headers of a decoded chunked response
+     UnstableSameNameOrder - Headers::iter() sorts unstably: fields that share a name may be emitted in any order *)
 EXTENDS HttpRespSyntax
 
 CONSTANT Dev
@@ -61,13 +62,16 @@ parsed == Resp(pv, pcode, phdrs, pbody)
 CONSTANT Segmented   \* TRUE: bytes arrive in arbitrary segments; FALSE: all at once
 
 \* --- serialiser: impl From<Response> for Vec<u8> ------------------------------------------------
-\* Headers::iter() sorts the fields stably by (category, name) (headers.rs; stable since fix 27df1d6).
+\* Headers::iter() sorts the fields stably by (category, name) (headers.rs; stable since fix 27df1d6; an
+\* unstable sort keeps same-name order only by accident - on rustc 1.95 up to 32 fields - which is the
+\* named bug UnstableSameNameOrder and the reason for the 30..100-field family of MC_HttpResp).
 \* C07 observes only the relative order of fields with the same name, so the model does not fix the
 \* order between different names: the serialiser emits, nondeterministically, any remaining header
 \* that has no earlier remaining header of the same name.  Every same-name-order-preserving
 \* interleaving is explored; the code's order is one of them.
 SerKey(h) == Lower(h.n)
-Emittable(hs) == { i \in 1..Len(hs) : \A j \in 1..(i - 1) : SerKey(hs[j]) # SerKey(hs[i]) }
+Emittable(hs) == IF "UnstableSameNameOrder" \in Dev THEN 1..Len(hs)      \* an unstable sort: any remaining header
+                 ELSE { i \in 1..Len(hs) : \A j \in 1..(i - 1) : SerKey(hs[j]) # SerKey(hs[i]) }
 RemoveAt(s, i) == SubSeq(s, 1, i - 1) \o SubSeq(s, i + 1, Len(s))
 
 EmittedPhrase(c) ==       \* what status.rs returns: the RFC 2616 phrase where there is one
